@@ -229,6 +229,25 @@ fn main() {
             println!("before={}", before);
             println!("after={}", layout(&db));
         }
+        // table_cache n1 n2 removed(0|1) : tables n1, n2 and a few neighbours (n ^ 1, n + 1, ...) exist; a fresh table cache is asked for
+        // n1, then (after remove(n1) if removed) for n2, then for both again; every answer must be the table with the asked number
+        "table_cache" => {
+            let (n1, n2, removed) = (num(a[1]), num(a[2]), a[3] == "1");
+            let fs = std::sync::Arc::new(raindb::fs::InMemoryFileSystem::new());
+            let o = v::options_with(fs, 400);
+            let mut numbers: Vec<u64> = vec![n1, n2, n1 ^ 1, n2 ^ 1, n1.wrapping_add(1), n2.wrapping_add(1), n1 / 2, n2 / 2];
+            numbers.sort();
+            numbers.dedup();
+            let lookups = vec![n1, n2, n1, n2, n1 ^ 1, n2 ^ 1];
+            let removes: Vec<Vec<u64>> = vec![vec![], if removed { vec![n1] } else { vec![] }];
+            match v::table_cache_scenario(&o, &numbers, &lookups, &removes) {
+                Some(r) => {
+                    println!("asked={}", join(&lookups));
+                    println!("got={}", r.iter().map(|x| x.map_or("none".to_string(), |n| n.to_string())).collect::<Vec<_>>().join(","));
+                }
+                None => println!("got=build-failed"),
+            }
+        }
         // trivial_move n0 n1 : level 1 holds n0 (1..2) adjacent files which are the chosen inputs, level 2 holds n1 files that
         // overlap them; after the real input finalisation the manifest is asked whether this is a trivial move
         "trivial_move" => {
